@@ -377,6 +377,8 @@ impl TCheck for C07 {
             ("decode_chunk", *rng.pick(&[1u64, 7, 64, 4096])),
             ("cluster_cache", *rng.pick(&[1u64, 2, 3, 40])),
             ("decomp_pool_size", *rng.pick(&[1u64, 2, 8])),
+            ("stream_short_read_pm", *rng.pick(&[0u64, 0, 250])),
+            ("stream_short_read_seed", rng.next_u64() >> 1),
         ];
         let readers = rng.range(2, 4) as usize;
         // contents several readers look at simultaneously
